@@ -35,6 +35,8 @@ mod lexmath;
 mod stypes;
 mod linecol;
 mod readers;
+#[cfg(feature = "rv")]
+mod c10raw;
 
 fn main() {
     let args: Vec<String> = std::env::args().collect();
@@ -76,6 +78,10 @@ fn main() {
             c19b::run(&mut sink, thorough, seed);
         }
         "C06" => c06::run(&mut sink, thorough, seed),
+        // the raw_value configuration of C10 runs the RawValue targets only (the rest does not depend on the feature)
+        #[cfg(feature = "rv")]
+        "C10" => c10raw::run(&mut sink, thorough, seed),
+        #[cfg(not(feature = "rv"))]
         "C10" => { c10::run(&mut sink, thorough, seed); typed::run_pfxs(&mut sink, thorough, seed); streamraw::run_c10(&mut sink, thorough, seed); }
         "C12" => c12::run(&mut sink, thorough, seed),
         "C13" => { c13::run(&mut sink, thorough, seed); typed::run_rfaults(&mut sink, thorough, seed); }
@@ -111,7 +117,7 @@ fn main() {
     if prop == "C12" { stypes::run_c12(&mut sink, thorough, seed); }
     if prop == "C09" { stypes::run_c09(&mut sink, thorough, seed); }
     if prop == "C13" { stypes::run_c13(&mut sink, thorough, seed); }
-    if prop == "C10" { stypes::run_c10(&mut sink, thorough, seed); }
+    if prop == "C10" && !cfg!(feature = "rv") { stypes::run_c10(&mut sink, thorough, seed); }
     // the two real string scanners of read.rs called directly (docs/READERS-NOTES.md): one line per property
     if prop == "C09" { readers::run(&mut sink, thorough, seed); }
     if prop == "C05" { readers::run(&mut sink, thorough, seed); }
@@ -126,6 +132,9 @@ fn replay(sink: &mut common::Sink, toks: &[&str]) {
         "vget" | "vindex" | "vindexmut" | "vtake" | "peq" | "jsonm" | "jsonp" | "jsonmbuild" => c18::replay(sink, toks),
         "pv" | "pi" => c01::replay(sink, toks),
         "pfx" => c10::replay(sink, toks),
+        "pfxt" => c10::replay(sink, toks),
+        #[cfg(feature = "rv")]
+        "pfxr" => c10raw::replay(sink, toks),
         "int" | "acc" | "iprint" => c06::replay(sink, toks),
         #[cfg(feature = "ap")]
         "numtext" | "reprint" => c20::replay(sink, toks),
@@ -135,6 +144,8 @@ fn replay(sink: &mut common::Sink, toks: &[&str]) {
         "rfault" | "rfaultt" | "sfault" | "wfault" => c13::replay(sink, toks),
         #[cfg(feature = "rv")]
         "rawtop" | "rawstr" | "rawelems" => c19::replay(sink, toks),
+        #[cfg(feature = "rv")]
+        "rawseq" => c19::replay(sink, toks),
         #[cfg(feature = "rv")]
         "rawfld" | "rawconv" => c19b::replay(sink, toks),
         "esc" | "escbufs" | "hex4" | "hex4s" | "scan" => c05::replay(sink, toks),
